@@ -188,7 +188,8 @@ def view_type(t, tag, top=True):
         tags = f.get("tags")
         if tags is None:
             g = dict(f)
-            g["t"] = view_type(f["t"], tag, False)
+            # the members of an embedded struct are fields of the struct that embeds it
+            g["t"] = view_type(f["t"], tag, top if f.get("anon") else False)
             fs.append(g)
             continue
         if tag not in tags:
@@ -227,7 +228,7 @@ def project_val(t, tag, v, drop=(), top=True):
             continue
         if i in drop:
             continue
-        out.append(project_val(f["t"], tag, x, (), False))
+        out.append(project_val(f["t"], tag, x, (), top if (tags is None and f.get("anon")) else False))
     return {"st": out}
 
 
@@ -996,8 +997,8 @@ def form_doc(d, repeat=None):
     values dropped, a trailing [] of the name removed; None = "too many form values" """
     if d is None:
         return None
-    if repeat:
-        n = repeat["n"] if repeat["val"] != "" else 0
+    if True:
+        n = repeat["n"] if repeat and repeat["val"] != "" else 0
         for kv in d["o"]:
             v = kv["v"]
             n += len([x for x in ([v] if "s" in v else v["a"]) if x["s"] != ""])
@@ -3009,6 +3010,82 @@ def reused_inputs(rng, n):
     return cases
 
 
+# ---------------------------------------------------------------------------- type shapes at the REST entry points
+
+def _static_types():
+    i, st_ = P("int"), P("string")
+    paging = St(multi("page", i, {"form": None}), multi("size", i, {"form": O(range=R("[1:100]"))}),
+                multi("sort", st_, {"form": O(options=["asc", "desc"], **{"def": "asc"})}))
+    ident = St(multi("id", i, {"path": O(range=R("[1:999]"))}))
+    trace = St(multi("X-Trace", st_, {"header": None}), multi("X-Level", i, {"header": O(opt=True, range=R("[0:5]"))}))
+    body = St(multi("filter", st_, {"json": O(opt=True)}), multi("limit", i, {"json": O(range=R("[1:50]"), **{"def": "10"})}))
+    filt = multi("filter", st_, {"json": O(opt=True)})
+    c = copy.deepcopy
+    return {
+        "reqFormU": St(A(c(paging)), c(filt)), "reqFormE": St(A(c(paging)), c(filt)), "reqFormPE": St(A(Ptr(c(paging))), c(filt)),
+        "reqFormUC": St(A(c(paging)), multi("keyword", st_, {"form": O(opt=True)})),
+        "reqPathU": St(A(c(ident)), c(filt)), "reqHeaderU": St(A(c(trace)), c(filt)),
+        "reqNestedF": St(A(St(A(c(paging)))), c(filt)), "reqNestedH": St(c(filt), A(St(A(c(trace))))),
+        "reqAllU": St(A(c(ident)), A(c(paging)), A(c(trace)), A(c(body))),
+        "reqMixed": St(multi("id", i, {"path": None}), A(c(paging)), A(St(A(c(trace)))), c(filt)),
+    }
+
+
+STATIC_TYPES = _static_types()          # harness/cmd/c08/types.go declares the same types in Go
+STATIC_SOURCES = {"reqFormU": "f", "reqFormE": "f", "reqFormPE": "f", "reqFormUC": "f", "reqPathU": "p", "reqHeaderU": "h",
+                  "reqNestedF": "f", "reqNestedH": "h", "reqAllU": "pfhj", "reqMixed": "pfh"}
+
+
+def parse_shapes():
+    """TYPE SHAPES handed to httpx.Parse: embedded structs (type name exported / unexported — only a
+    declared Go type can have the latter —, by value / by pointer, nested two levels, the only carrier
+    of a source's tag key or beside another field carrying it) x sources (path, form, header, body),
+    each source alone and combined; valid input and one constraint missed per source; through Parse
+    (with and without a request validator) and through the entry point of the source alone"""
+    forms = [("ok", [("page", "2"), ("size", "50")]), ("range", [("page", "2"), ("size", "500")]),
+             ("option", [("page", "2"), ("size", "50"), ("sort", "random")]), ("missing", [("size", "50")]),
+             ("ok2", [("page", "1"), ("size", "100"), ("sort", "desc")])]
+    paths = [("ok", [("id", "5")]), ("range", [("id", "5000")]), ("missing", [])]
+    heads = [("ok", [("X-Trace", "t1")]), ("range", [("X-Trace", "t1"), ("X-Level", "9")]), ("missing", [("X-Level", "3")]),
+             ("ok2", [("X-Trace", "t2"), ("X-Level", "5")])]
+    bodies = [("ok", dobj([("filter", ds("q"))])), ("range", dobj([("limit", dn("77"))])), ("ok2", None)]
+    cases = []
+    k = 0
+    for name, srcs in STATIC_SOURCES.items():
+        grids = {"f": forms if "f" in srcs else [("none", [])], "p": paths if "p" in srcs else [("none", [])],
+                 "h": heads if "h" in srcs else [("none", [])], "j": bodies if "j" in srcs else [("ok", dobj([("filter", ds("q"))]))]}
+        combos = []
+        # one source varies at a time, the others are fine
+        for which in "pfhj":
+            for idx in range(len(grids[which])):
+                pick = {w: (idx if w == which else 0) for w in "pfhj"}
+                if pick not in combos:
+                    combos.append(pick)
+        for pick in combos:
+            k += 1
+            rq = {"form": dobj([(a, {"a": [ds(b)]}) for a, b in grids["f"][pick["f"]][1]]),
+                  "path": dobj([(a, ds(b)) for a, b in grids["p"][pick["p"]][1]]),
+                  "header": dobj([(a, ds(b)) for a, b in grids["h"][pick["h"]][1]])}
+            bd = grids["j"][pick["j"]][1]
+            if bd is not None:
+                rq["bodydoc"] = copy.deepcopy(bd)
+            intents = [grids[w][pick[w]][0] for w in "pfhj"]
+            entries = ["Parse"]
+            if k % 3 == 0:
+                entries += [{"f": "ParseForm", "p": "ParsePath", "h": "ParseHeaders", "j": "ParseJsonBody"}[w] for w in srcs]
+            for e in entries:
+                c = {"mode": "parse", "type": copy.deepcopy(STATIC_TYPES[name]), "static": name, "req": copy.deepcopy(rq), "entry": e,
+                     "intent": "shape-" + name + ":" + "/".join(intents)}
+                if e == "Parse" and k % 4 == 0:
+                    c["validator"] = "accept" if k % 8 else "reject"
+                cases.append(finish(c))
+    # a type that reads only the body, sent more form values than GetFormValues admits: Parse refuses the request
+    t = St(multi("filter", P("string"), {"json": O(opt=True)}))
+    rq = {"form": dobj([("x", {"a": [ds("1")] * (MAX_FORM_VALUES + 1)})]), "bodydoc": dobj([("filter", ds("q"))])}
+    cases.append(finish({"mode": "parse", "type": t, "req": rq, "intent": "shape-json-only-too-many-form-values"}))
+    return cases
+
+
 class C08(Property):
     id = "C08"
     title = "Declarative validation: accepted input always satisfies the field constraints"
@@ -3182,7 +3259,7 @@ class C08(Property):
              "doc": dobj([("p", ds("2")), ("q", ds("3"))])},
         ]
         # one request looked at several times comes first (seeded C08-10)
-        return reparse_corpus() + [finish(c) for c in cs]
+        return reparse_corpus() + parse_shapes() + [finish(c) for c in cs]
 
     def gen(self, rng, n, tier):
         # sequences first: a state leak between requests is then reported as a self-contained
